@@ -6188,6 +6188,8 @@ class Frame(ContainerOperand):
         iloc_key = self._columns._loc_to_iloc(key)
         if not isinstance(iloc_key, INT_TYPES):
             raise RuntimeError(f'Unsupported key type: {key}')
+        if iloc_key < 0: # a negative position (as with ILoc[-1]) counts from the end
+            iloc_key += len(self._columns)
         return self._insert(iloc_key, container, fill_value=fill_value)
 
     @doc_inject(selector='insert')
@@ -6211,6 +6213,8 @@ class Frame(ContainerOperand):
         iloc_key = self._columns._loc_to_iloc(key)
         if not isinstance(iloc_key, INT_TYPES):
             raise RuntimeError(f'Unsupported key type: {key}')
+        if iloc_key < 0: # a negative position (as with ILoc[-1]) counts from the end
+            iloc_key += len(self._columns)
         return self._insert(iloc_key + 1, container, fill_value=fill_value)
 
     #---------------------------------------------------------------------------
